@@ -150,6 +150,9 @@ func WithDefaultPrefix() FormatOption {
 // the empty string, the ':' is used.
 func WithSeparator(separator string) FormatOption {
 	return func(o *formatOptions) {
+		if separator == "" {
+			separator = ":"
+		}
 		o.separator = separator
 	}
 }
